@@ -1470,7 +1470,7 @@ func (x *Exec) makeInterface(st *State, v Value, ifaceT types.Type) Value {
 	tag := x.typeID(v.T)
 	switch v.T.Underlying().(type) {
 	case *types.Pointer, *types.Map, *types.Chan:
-		if v.P != nil && !(v.P.Kind == PObj && v.P.Off == 0) {
+		if !wholeObjectPtr(v) {
 			// A pointer into the interior of an object (&o.field): the payload is a fresh
 			// identity and the pointer itself is remembered beside it, so a method call or a
 			// type assertion on this interface value gets the same pointer back. The identity
@@ -1677,4 +1677,19 @@ func isNoopCallee(q string) bool {
 		return true
 	}
 	return false
+}
+
+// wholeObjectPtr: the pointer designates an object of its own pointee type (not a field
+// or element inside a larger object - the first field of a struct has offset 0 as well).
+func wholeObjectPtr(v Value) bool {
+	if v.P == nil {
+		return true
+	}
+	if v.P.Kind != PObj || v.P.Off != 0 {
+		return false
+	}
+	if pt, ok := v.T.Underlying().(*types.Pointer); ok && v.P.Root != nil {
+		return types.Identical(pt.Elem(), v.P.Root)
+	}
+	return true
 }
